@@ -1038,6 +1038,8 @@ def _analyse_own(chk):
 
 def analyse(chk):
     _analyse_own(chk)
+    chk.guard(lambda c_: core.include_findings(c_, 'C06', files=['ciderpress/dft/grids_indexer.py', 'ciderpress/pyscf/gen_cider_grid.py'], rules=['key-domain'],
+                                               why='per-atom grid / harmonic tables must be looked up with the key function they were produced with'))
     chk.guard(lambda c_: core.include_findings(c_, 'C10', files=['ciderpress/lib/mod_cider/cider_grids.c', 'ciderpress/lib/mod_cider/sph_harm.c'], rules=None,
                                                why='a data race in the harmonic tabulation corrupts ylm'))
 
